@@ -325,17 +325,19 @@ def _uses_of(x: Any) -> list[Any]:
     return out
 
 
-def _canon_op_shallow(u: Universe, op: Operation) -> tuple[Any, ...]:
+def _canon_op_shallow(u: Universe, op: Operation, ext_values: dict[int, Any] | None = None, ext_blocks: dict[int, Any] | None = None, drop_operands: bool = False) -> tuple[Any, ...]:
     own = {id(r): j for j, r in enumerate(op.results)}
+    ev = ext_values or {}
+    eb = ext_blocks or {}
     return (
         op.name,
         type(op).__name__,
-        tuple(("self-res", own[id(v)]) if id(v) in own else ("ext", u.nm(v)) for v in op._operands),
+        () if drop_operands else tuple(("self-res", own[id(v)]) if id(v) in own else ("ext", u.nm(ev.get(id(v), v))) for v in op._operands),
         tuple(r.type for r in op.results),
         tuple((k, op.attributes[k]) for k in sorted(op.attributes)),
         tuple((k, op.properties[k]) for k in sorted(op.properties)),
         op.location,
-        tuple(("ext", u.nm(b)) for b in op._successors),
+        tuple(("ext", u.nm(eb.get(id(b), b))) for b in op._successors),
         len(op.regions),
     )
 
@@ -404,12 +406,26 @@ class C02Engine(IrEngineBase):
             src = spec.source
             pre["src_snap"] = snap_tree(u, src)
             pre["src_ids"] = {id(x) for x in u.closure(src)}
+            # what the caller's mappers ask for: replacements of *outside* references
+            vm0 = dict(spec.value_mapper) if spec.kind != "apply_to_clone" and spec.value_mapper is not None else {}
+            bm0 = dict(spec.block_mapper) if spec.kind != "apply_to_clone" and spec.block_mapper is not None else {}
+            inside = {id(r) for r in src.results} if spec.kind == "op.clone_without_regions" else pre["src_ids"]
+            ext_v = {id(k): v for k, v in vm0.items() if id(k) not in inside}
+            ext_b = {id(k): v for k, v in bm0.items() if id(k) not in inside}
+            pre["vm0"], pre["bm0"], pre["inside"] = vm0, bm0, inside
+            drop = not spec.clone_operands
+            if ext_v or ext_b:
+                st["reach.clone_with_preseeded_mapper"] += 1
+            if drop:
+                st["reach.clone_operands_false"] += 1
             if spec.kind == "op.clone_without_regions":
-                pre["canon"] = _canon_op_shallow(u, src)
-            elif spec.kind in ("op.clone", "apply_to_clone"):
+                pre["canon"] = _canon_op_shallow(u, src, ext_v, ext_b, drop)
+            elif spec.kind == "apply_to_clone":
                 pre["canon"] = canon(u, src)
+            elif spec.kind == "op.clone":
+                pre["canon"] = canon(u, src, ext_v, ext_b, drop)
             else:
-                pre["canon"] = canon(u, _region_blocks(src))
+                pre["canon"] = canon(u, _region_blocks(src), ext_v, ext_b, drop)
             if spec.dest is not None:
                 old = _region_blocks(spec.dest)
                 pre["dest_old"] = old
@@ -536,6 +552,28 @@ class C02Engine(IrEngineBase):
         for x in copy_objs:
             if isinstance(x, Operation) and (id(x.attributes) in src_dicts or id(x.properties) in src_dicts):
                 return bad("clone-shares-object", f"attribute/property dictionary of {u.nm(x)} is the very dictionary of a source operation")
+        # the mappers handed in by the caller: old -> new for everything inside the cloned
+        # part, entries for outside keys untouched
+        if spec.value_mapper is not None and spec.block_mapper is not None:
+            if spec.kind == "op.clone_without_regions":
+                old_objs: list[Any] = list(src.results)
+                new_objs: list[Any] = list(ret.results)
+            elif spec.kind == "op.clone":
+                old_objs, new_objs = u.closure(src), u.closure(ret)
+            else:
+                old_objs = [x for b in _region_blocks(src) for x in u.closure(b)]
+                new_objs = list(copy_objs)
+            if len(old_objs) != len(new_objs):
+                return bad("clone-not-equivalent", "the copy does not have the shape of the source part")
+            for a, b in zip(old_objs, new_objs):
+                m = spec.value_mapper if isinstance(a, SSAValue) else spec.block_mapper if isinstance(a, Block) else None
+                if m is not None and m.get(a) is not b:
+                    return bad("clone-mapper", f"after the call the caller's mapper sends {u.nm(a)} to {u.nm(m.get(a))}, its copy is {u.nm(b)}")
+            for m, m0 in ((spec.value_mapper, pre["vm0"]), (spec.block_mapper, pre["bm0"])):
+                for k, v in m0.items():
+                    if id(k) not in pre["inside"] and m.get(k) is not v:
+                        return bad("clone-mapper", f"the caller's mapper entry for {u.nm(k)} (outside the cloned part) was changed")
+            st["reach.clone_mapper_checked"] += 1
         st["reach.clone_oracle_passed"] += 1
         if any(isinstance(x, Operation) and (any(not _inside(v, copy_objs) for v in x._operands)) for x in copy_objs):
             st["reach.clone_with_outside_operands"] += 1
